@@ -10,7 +10,10 @@ Driver for C10.
   test's own thread performs during `runm`) is run through `wrapper`, which executes the REGENERATED
   constructor / destructor / releaseBeforeFailing / fail statements (`Gen.ThreadSafe.code`), so the
   model predicts `lockstate free` / `next done` for the code as repaired and `held` / `hang` for a
-  tree in which the report no longer gives the lock back.
+  tree in which the report no longer gives the lock back.  `misuse <kind> junit` is the same misuse with the
+  failure recorded by the real JUnit output: the model runs `wrapperOut` with `Out.alloc = true` (recording
+  the failure is one more wrapper call on the reporting thread when `operator new` is on its thread-safe
+  function), so a `fail` that records the failure before it released the mutex is predicted to `hang`.
 * specification oracle (`spec`): judges the IMPLEMENTATION's observation lines only, with its own
   per-thread shadow sets of labels: no misuse report and no data-race symptom while the threads
   ran, exactly one lock acquisition per operation and as many releases, every underlying
@@ -114,6 +117,18 @@ def countReport (op : DetOp) (s : Sys) (n : Nat) : Nat := if isMisuse op s.det t
 /-- run one detector operation through the function installed for it: a whole locked wrapper (the
     regenerated constructor / destructor / fail statements executed by the model), or the plain call;
     counts misuse reports and the wrappers that gave the lock back -/
+def applyOpOut (out : Out) (acc : RAcc) (item : DetOp × Bool) : RAcc :=
+  match acc.sys with
+  | none => acc
+  | some s =>
+    if item.2 then
+      match wrapperOut out item.1 s with
+      | some s' => { sys := some s', reports := countReport item.1 s acc.reports,
+                     releases := if s'.lf.lock == .free then acc.releases + 1 else acc.releases }
+      | none => { acc with sys := none }
+    else { acc with sys := plainCallOut out item.1 s, reports := countReport item.1 s acc.reports }
+
+/-- with the test fixture's string-buffer output: recording a failure does not allocate through operator new -/
 def applyOp (acc : RAcc) (item : DetOp × Bool) : RAcc :=
   match acc.sys with
   | none => acc
@@ -124,6 +139,10 @@ def applyOp (acc : RAcc) (item : DetOp × Bool) : RAcc :=
                      releases := if s'.lf.lock == .free then acc.releases + 1 else acc.releases }
       | none => { acc with sys := none }
     else { acc with sys := plainCall item.1 s, reports := countReport item.1 s acc.reports }
+
+/-- the JUnit output of `misuse <kind> junit`: `printFailure` does `new TestFailure(failure)` (debug form of
+    `operator new`, the library is compiled with the new macros), through whatever function is installed for it now -/
+def junitOut (d : DState) : Out := { alloc := true, locked := lockedOf d "newdbg" }
 
 def overloadedLine (p : Ptrs) : String := s!"overloaded {if p.overloaded then 1 else 0}"
 
@@ -257,6 +276,26 @@ def modelStep (d : DState) (op : List String) (_obs : List (List String)) : DSta
         | some s2 =>
           let d' := { d with sys := some s2, scratch := d.scratch + 10 }
           (d', head ++ ["next done", s!"outstanding {outstandingOf d'}"])
+    | _, _ => (d, ["bad-op"])
+  | ["misuse", kind, "junit"] =>
+    match misuseOps kind d.scratch, d.sys with
+    | some ops, some s0 =>
+      -- the same operations; the failure is recorded by an output that allocates through operator new
+      let r := (withLock d ops).foldl (applyOpOut (junitOut d)) { sys := some s0 }
+      match r.sys with
+      | none => ({ d with sys := none }, ["hang"])
+      | some s1 =>
+        let head := [s!"reported {r.reports}", s!"left-by-jump {if r.reports > 0 then 1 else 0}",
+                     s!"lockstate {if s1.lf.lock == .free then "free" else "held"}"]
+        let nxt := [DetOp.alloc (d.scratch + 2) .new, .free (d.scratch + 2) .new false,
+                    .alloc (d.scratch + 3) .malloc, .free (d.scratch + 3) .malloc false]
+        let r2 := (withLock d nxt).foldl applyOp { sys := some s1 }
+        match r2.sys with
+        | none => ({ d with sys := none, scratch := d.scratch + 10 }, head ++ ["next hang"])
+        | some s2 =>
+          let d' := { d with sys := some s2, scratch := d.scratch + 10 }
+          -- the output stored one copy of the failure for the nested test and wrote it when the group ended
+          (d', head ++ ["next done", s!"recorded {if r.reports > 0 then 1 else 0}", s!"outstanding {outstandingOf d'}"])
     | _, _ => (d, ["bad-op"])
   | ["skip"] => (d, [])
   | _ => (d, ["bad-op"])
@@ -392,7 +431,7 @@ def specStepCore (sh : Shadow) (o : Proto.Op) : Except String Shadow := do
     if reports != 0 then throw s!"{reports} block(s) held by the threads were not outstanding in the detector"
     if outstanding != 0 then throw s!"{outstanding} block(s) still outstanding after everything held was released"
     return { sh with held := [], moving := [] }
-  | ["misuse", kind] =>
+  | ["misuse", kind] | ["misuse", kind, "junit"] =>
     let some reported := obsNat o.obs "reported" | throw "no `reported` observation"
     if reported == 0 then throw s!"misuse {kind} was not reported as a test failure"
     let lock := (obsWord o.obs "lockstate").getD "?"
@@ -408,8 +447,8 @@ def specStepCore (sh : Shadow) (o : Proto.Op) : Except String Shadow := do
 
 def specStep (sh : Shadow) (o : Proto.Op) : Except String Shadow := do
   if o.obs.any (· == ["stalled"]) then
-    if sh.misused || o.op.head? == some "runm" then
-      throw "stalled-after-misuse-report: no operation of any thread completed for 6 s in or after a phase in which the test's thread reported a misuse: a thread is blocked on the detector lock for ever"
+    if sh.misused || o.op.head? == some "runm" || o.op.head? == some "misuse" then
+      throw "stalled-after-misuse-report: no operation of any thread completed for 6 s (2 s inside `misuse <kind> junit`) in or after a phase in which the test's thread reported a misuse: a thread is blocked on the detector lock for ever"
     throw "no operation of any thread completed for 6 s: a thread is blocked on the detector lock for ever, or loops inside the detector"
   let races := raceLines o.obs
   match races.find? (fun l => !isCounterRace l) with
